@@ -2,17 +2,20 @@
 META = dict(
     level='proof',
     level_text='The real evaluator loop (evaluator_t<view,none>::operator()(output&), instantiated for a transpose view over the generic bounded ndarray and a bounded output array) is proved modularly: for every view shape of rank 0..4 and element count 0..6, if the output has the view shape then after the call output element i equals the view element at the i-th multi-index for EVERY i (the view is an uninterpreted pure function of the index, so the proof does not depend on which view it is); if the shapes differ the output buffer is untouched. The loop is closed by a loop contract; callees (shape, isequal, ndindex, apply_at) are used through their contracts.',
-    level_note='Assumed callee contracts (each discharged elsewhere or trusted, see assumptions): isequal (C18), ndindex[i]/size (C01), output addressing position = i at the i-th enumerated index (C01 + Lean lemma L1), shape(view) reports the view shape. The array::fn(args) front ends, eval() allocating its result (apply_resize) and column-major outputs are not covered.',
+    level_note='Callee contracts: isequal is discharged in this property (unit isequal_sv4.contract); assumed (discharged elsewhere or trusted, see assumptions): ndindex[i]/size (C01), output addressing position = i at the i-th enumerated index (C01 + Lean lemma L1), shape(view) reports the view shape. The array::fn(args) front ends, eval() allocating its result (apply_resize) and column-major outputs are not covered.',
     explanation='Contract of the enforced function: requires the ghosts GS/GN/IDXV/VG to describe the view (shape, count, enumeration, values); ensures shape match ? forall p<GN: output[p] == VG[p] : output unchanged. "Composition is unobservable" follows because the contract holds for any pure view function (a view of a view is again a pure function of the index).',
     trusted_base=['clang 14 front end', 'engine/cxx2c.py', 'cbmc 6.11.0 --dfcc', 'callee contracts in contracts/c10.spec that are not re-proved here: shape(view) reports the shape the evaluator should use; apply_at(view, idx) is a pure function of the live part of idx'],
     assumptions=['output position of the i-th enumerated multi-index is i (C01 units ndindex_at.uf / compute_offset.uf + lemmas/MixedRadix.lean offset_indices_id) -- assumed by name (C10_POS_ENUM)',
                  'the output array satisfies its invariant (element count == product of the shape; C20) -- assumed as data_.size_ == GN when the shapes match',
-                 'isequal(shape,shape) is exact (C18 isequal.sv_sv)', 'bounded containers: rank <= 4, element count <= 6 (capacities of the instantiated types; the proof text is macro-expanded over them)'],
+                 'bounded containers: rank <= 4, element count <= 6 (capacities of the instantiated types; the proof text is macro-expanded over them)'],
     not_covered=['view-specific element semantics beyond the bounded transpose unit', 'eval() returning a freshly allocated array (apply_resize path)', 'column-major result layout', 'array::fn(args) front ends', 'the view-specific element semantics (C03/C04/C05 index functions)'],
 )
 HARNESS = '''  view_t vobj; struct none_t cobj;
   a_self.view = &vobj; a_self.context = &cobj;'''
 UNITS = [
+    Unit('isequal_sv4.contract', 'c10', 'nmtools::utils::isequal[rstatic_vector_ul_4_rstatic_vector_ul_4]', mode='bp', unwind=6,
+         harness='  __CPROVER_assume(W4 == c10_first_diff(a_t, a_u));',
+         clause='(callee contract used by the evaluator unit) isequal on the shapes is exact'),
     Unit('transpose_view_at.bounded', 'c10', 'verif_transpose_at', mode='bp', plain=True, unwind=8, unwind_loops={'.': 8}, timeout=1500, object_bits=12,
          bounded='rank <= 3, extents 1..6, element count <= 6 (all loops unwound)',
          clause='(view-specific side) the lazy transpose view yields at every index the element NumPy yields, through the real decorator/indexing/ndarray glue'),
